@@ -71,6 +71,11 @@ class Check:
             raise tlc.TlcError(f"specification {module} ({label}) violates {res.violated}:\n{tail}")
         return res
 
+    def run_model(self, prepared: Dict[str, Any], **kw) -> tlc.TlcResult:
+        files = dict(prepared.get("files") or {})
+        files.update(kw.pop("files", None) or {})
+        return self.run_tlc(prepared["module"], prepared["cfg"], files=files, **kw)
+
     def require_coverage(self, module: str, actions: List[str]):
         for a in actions:
             if self.coverage.get(f"{module}.{a}", 0) <= 0:
